@@ -270,7 +270,8 @@ def run_impl(mods, case):
             processing._substitute_original_fstrings = saved
     # per scheduled rewrite: applied / noop (new text == old text) / veto (_do_rewrite handed the text back) /
     # refused (the application step never offered it to _do_rewrite)
-    status = [trace.get(id(rw), "refused") for _, (_, rw) in sched]
+    status = [trace.get(id(rw)) or ("noop" if rw.new == source[rng.start:rng.end] else "refused")
+              for _, (rng, rw) in sched]
     return flat, out, status, last[0]
 
 
